@@ -1,5 +1,179 @@
-import OrixModel.Codec.AngVendors
-import OrixGen.IoTables
-/- C15 — placeholder while the models are validated against the implementation -/
+import OrixProofs.Lemmas.CodecAngVendorsMain
+import OrixModel.Codec.Ctf
+import OrixModel.Codec.Bruker
+import OrixModel.Codec.Emsoft
+set_option linter.unusedVariables false
+/-
+C15 — vendor file readers decode every field of the formats they support.
+
+These are theorems about *format models*: for each vendor variant a format description
+`encodeᵥ : map → file record` (column order, header fields, angular unit, not-indexed convention, region-of-
+interest ordering; `OrixModel/Codec/{AngVendors,Ctf,Bruker,Emsoft}.lean`) and the code-shaped reader model
+`decodeᵥ` instantiated with the column / footprint / alias / Laue-class / property tables **generated from the
+source on every run** (`OrixGen.IoTables`).  `decodeᵥ (encodeᵥ m) = some m` says the format description is
+unambiguous and the reader inverts it: right column ↦ right field, units, phase-id conventions.  The link to
+orix is the correspondence check (harness/props/c15.py): `encodeᵥ m` is rendered to a real file and loaded.
+-/
 namespace Orix.C15
+open Orix.Codec Orix.Codec.Ang Orix.Gen.Io
+
+/-- **.ang, EDAX TSL (10 and 14 columns), EMsoft, ASTAR**: for every map `m` well-formed for the variant
+(`VendorWF`: its property names are the variant's, phases sorted by id with one header block each whose
+symmetry spelling resolves to the phase's point group, phase ids in the data = phases in the header,
+TSL: not indexed ⇔ confidence index -1) and every choice of the file-only content `x`, the reader returns
+exactly `m`, without warning. -/
+theorem ang_decode_encode (f : AngFmt) (x : AngExtras) (m : PMap) (ni : Bool) (hwf : VendorWF f x m ni) :
+    readAng angReader 100000 (encodeAng f x m) = some (false, m) :=
+  ang_vendor_main f x m ni hwf
+
+/-- **.ang, orix variant**: this is C14's `ang_roundtrip_partial` (the orix writer is the format description). -/
+theorem ang_orix_decode_encode (o : AngOpts) (m : GridIn) (f : AngFile) (hwf : AngWF o m)
+    (hw : writeAng angWriter o m = some f) :
+    ∃ cols, resolveProps angWriter o m = some cols ∧
+      readAng angReader 100000 f = some (false, quantise properSubgroup o m cols) :=
+  roundtrip_main o m f hwf hw
+
+/-- **Column tables** (T-gen obligation, kernel-decided on the generated tables): for each vendor the reader's
+table has a row with exactly the documented names in the documented order. -/
+theorem ang_column_tables (f : AngFmt) :
+    columnsFor angReader (fmtVendor f) (fmtColumns f).length = some (fmtVendor f, fmtColumns f, false) :=
+  columns_table f
+
+/-- **Unexpected number of columns** (no silent mis-assignment): for TSL, EMsoft and ASTAR files and every
+column count below 40 that the reader's table does not list for the vendor, the columns are named
+`euler1, euler2, euler3, x, y, unknown1, unknown2, phase_id, unknown3, …` and the warning flag is set. -/
+theorem unexpected_columns :
+    ([Vendor.tsl, Vendor.emsoft, Vendor.astar].all fun v => (List.range 40).all fun n =>
+      (match lookupV v angReader.columns with
+        | some variants => (variants.map List.length).contains n
+        | none => true) ||
+      (columnsFor angReader v n == some (Vendor.unknown,
+        [S "euler1", S "euler2", S "euler3", S "x", S "y", S "unknown1", S "unknown2", S "phase_id"]
+          ++ (List.range (n - 8)).map unknownName, true))) = true :=
+  unexpected_columns_small
+
+/-- a point of a row read with *any* table of distinct names comes back field by field (used for every
+text format): in particular two swapped names in a table swap two fields — nothing else can happen -/
+theorem row_roundtrip (names props : List Str) (p : Pt)
+    (hs : ∀ s ∈ specialNames, s ∈ names) (hp : ∀ k ∈ props, k ∈ names ∧ k ∉ specialNames)
+    (hn : props.Nodup) (hl : props.length = p.vals.length) :
+    rowToPt names props (names.map (field props p)) = some p :=
+  rowToPt_field names props p hs hp hn hl
+
+/-! ### .ctf -/
+section Ctf
+open Orix.Codec.Ctf
+
+/-- T-gen obligations for the .ctf reader: column order, EMsoft renaming, degrees, not-indexed id, unit. -/
+theorem ctf_tables :
+    ctfTables.columns = Ctf.fmtColumns ∧
+    ((Ctf.fmtColumns.filter fun n => !ctfTables.dataKeys.contains n).map (propNameOf ctfTables (S "emsoft"))
+      = Ctf.fmtProps .emsoft) ∧
+    ((Ctf.fmtColumns.filter fun n => !ctfTables.dataKeys.contains n).map (propNameOf ctfTables (S "oxford_or_bruker"))
+      = Ctf.fmtProps .oxford) ∧
+    ctfTables.degrees = true ∧ ctfTables.notIndexedId = 0 ∧ ctfTables.unit = S "um" ∧
+    vendorOf ctfTables [] = S "oxford_or_bruker" ∧ vendorOf ctfTables [S "emsoft"] = S "emsoft" ∧
+    vendorOf ctfTables [S "astar"] = S "astar" ∧ vendorOf ctfTables [S "mtex"] = S "mtex" := by
+  decide +kernel
+
+/-- which Laue-class numbers the reader can turn into a point group: all but 10 (kernel-decided on the
+generated Laue table, alias table and group names) -/
+theorem ctf_laue_classes :
+    ((List.range' 1 11).filter fun (l : Nat) =>
+      (phaseOf ctfTables 1 ⟨[], [], (l : Int), 0⟩).isNone) = [10] := by
+  decide +kernel
+
+/-- a 2×2 single-phase Oxford map with the given Laue class and space group -/
+def ctfMap (pg : Str) (sg : Option Nat) : PMap :=
+  { propNames := Ctf.fmtProps .oxford,
+    pts := [⟨0, 0, 1, ⟨100000, 200000, 300000⟩, [1, 2, 3, 4, 5]⟩, ⟨10000, 0, 1, ⟨110000, 210000, 310000⟩, [6, 7, 8, 9, 10]⟩,
+            ⟨0, 10000, 1, ⟨120000, 220000, 320000⟩, [11, 12, 13, 14, 15]⟩,
+            ⟨10000, 10000, 1, ⟨130000, 230000, 330000⟩, [16, 17, 18, 19, 20]⟩],
+    phases := [{ id := 1, name := S "Iron fcc", pg := some pg, sg := sg, lattice := [3660, 3660, 3660, 90000, 90000, 90000], atoms := [] }],
+    unit := S "um", degrees := true }
+
+def ctfX (laue sg : Int) : CtfExtras := ⟨[laue], [sg], 2, 2, 10000, 10000, [], []⟩
+
+/-- non-vacuity: an ordinary Oxford file (Laue class 11, space group 225) is read back exactly -/
+example : readCtf ctfTables (encodeCtf .oxford (ctfX 11 225) (ctfMap (S "m-3m") (some 225)))
+    = some (ctfMap (S "m-3m") (some 225)) := by decide +kernel
+
+/-- **Counter-example (finding)**: Laue class 10 — the reader's table says `m3`, which is no point group:
+the file cannot be read. -/
+theorem ctf_laue_10_counterexample :
+    readCtf ctfTables (encodeCtf .oxford (ctfX 10 205) (ctfMap (S "m-3") (some 205))) = none := by
+  decide +kernel
+
+/-- **Counter-example (finding)**: a non-centrosymmetric space group (216, F-43m) with its Laue class 11:
+the phase comes back without space group. -/
+theorem ctf_space_group_counterexample :
+    (readCtf ctfTables (encodeCtf .oxford (ctfX 11 216) (ctfMap (S "m-3m") (some 216)))).map
+      (fun m => m.phases.map fun p => (p.pg, p.sg)) = some [(some (S "m-3m"), none)] := by
+  decide +kernel
+
+end Ctf
+
+/-! ### Bruker h5ebsd -/
+section Bruker
+open Orix.Codec.Bruker
+
+/-- T-gen obligations for the Bruker reader: dataset ↦ property table, Euler datasets, degrees, phase 0,
+which arrays `final_preparations` re-orders and reverses. -/
+theorem bruker_tables :
+    brukerTables.props = Bruker.fmtProps ∧ brukerTables.eulerDatasets = [S "phi1", S "PHI", S "phi2"] ∧
+    brukerTables.degrees = true ∧ brukerTables.notIndexedId = 0 ∧ brukerTables.unit = S "um" ∧
+    brukerTables.yProp = S "YSAMPLE" ∧ brukerTables.xProp = S "XSAMPLE" ∧
+    brukerTables.reversedAttrs = [S "x"] ∧ brukerTables.sortsProps = true ∧
+    brukerTables.sortedAttrs = [S "x", S "phase_id", S "rotations"] := by
+  decide +kernel
+
+/-- a 2×2 map (row-major) as a Bruker file stores it: XSAMPLE mirrored, YSAMPLE = y -/
+def bMap : PMap :=
+  { propNames := Bruker.fmtProps.map (·.1),
+    pts := [⟨0, 0, 1, ⟨10, 20, 30⟩, [1, 2, 3, 4, 5, 6, 7, 8, 9, 10, 500, 0, 13]⟩,
+            ⟨500, 0, 1, ⟨11, 21, 31⟩, [21, 22, 23, 24, 25, 26, 27, 28, 29, 30, 0, 0, 33]⟩,
+            ⟨0, 500, 1, ⟨12, 22, 32⟩, [41, 42, 43, 44, 45, 46, 47, 48, 49, 50, 500, 500, 53]⟩,
+            ⟨500, 500, 1, ⟨13, 23, 33⟩, [61, 62, 63, 64, 65, 66, 67, 68, 69, 70, 0, 500, 73]⟩],
+    phases := [{ id := 1, name := S "a", pg := some (S "m-3m"), sg := some 225, lattice := [1, 1, 1, 90, 90, 90], atoms := [] }],
+    unit := S "um", degrees := true }
+
+def bX (perm : List Nat) : BrukerExtras := ⟨true, perm, 2, 2, 5, 7, 0, 0, [[]], [225]⟩
+
+/-- non-vacuity: stored row by row, or with the points of each row in another order, the map is read back -/
+example : decode brukerTables (encode (bX [0, 1, 2, 3]) bMap) = some bMap := by decide +kernel
+example : decode brukerTables (encode (bX [1, 0, 3, 2]) bMap) = some bMap := by decide +kernel
+
+/-- **Counter-example (finding)**: when the acquisition order permutes *rows* (here: second row first), every
+array is sorted back by `IY`, `IX` except the y coordinates, which stay in file order. -/
+theorem bruker_y_counterexample :
+    (decode brukerTables (encode (bX [2, 3, 0, 1]) bMap)).map (fun m => m.pts.map fun p => (p.x, p.y))
+      = some [(0, 500), (500, 500), (0, 0), (500, 0)] ∧
+    bMap.pts.map (fun p => (p.x, p.y)) = [(0, 0), (500, 0), (0, 500), (500, 500)] := by
+  decide +kernel
+
+end Bruker
+
+/-! ### EMsoft h5ebsd -/
+section Emsoft
+open Orix.Codec.Emsoft
+
+/-- T-gen obligations for the EMsoft reader: property list, dictionary angles in degrees and 1-based
+indices, refined angles in radians. -/
+theorem emsoft_tables :
+    emsoftTables.props = [S "AvDotProductMap", S "CI", S "IQ", S "ISM", S "KAM", S "OSM", S "RefinedDotProducts",
+                          S "TopDotProductList", S "TopMatchIndices"] ∧
+    emsoftTables.dictDegrees = true ∧ emsoftTables.refinedDegrees = false ∧ emsoftTables.indexBase = 1 ∧
+    emsoftTables.unit = S "um" := by
+  decide +kernel
+
+/-- the header regular expressions: first word of `MaterialName`, bracketed point group (with backtracking:
+the class `A-z` contains `]`) -/
+theorem emsoft_header_regex :
+    firstWord (S "fe4al13/fe4al13") = some (S "fe4al13") ∧
+    bracketed (S "Monoclinic b (C2h) [2/m]") = some (S "2/m") ∧
+    bracketed (S "Cubic (Oh) [m-3m]") = some (S "m-3m") := by
+  decide +kernel
+
+end Emsoft
+
 end Orix.C15
